@@ -140,6 +140,15 @@ def _ba_getslice(E, ba, lo, hi):
     return B.getslice(E, E.rd_field(ba, "content"), lo, hi, None)
 
 
+@hook("BArr", "setslice")
+def _ba_setslice(E, ba, lo, hi, v):
+    cur = zbytes(E.rd_field(ba, "content"))
+    n = z3.Length(cur)
+    a, b = B.clamp_bounds(E, lo, hi, n)
+    v = E.unopt(v, "assigned slice")
+    E.wr_field(ba, "content", Sym(z3.Concat(z3.Extract(cur, 0, a), zbytes(v), z3.Extract(cur, b, n - b)), "bytes"))
+
+
 @hook("BArr", "delslice")
 def _ba_delslice(E, ba, lo, hi):
     cur = zbytes(E.rd_field(ba, "content"))
